@@ -108,6 +108,11 @@ func init() {
 			job(sc(sim.CoreCfg("c01-core-k3-ids-0-191-255", 3, 128, []int{0, 190, 62, 0}, fMove|fVal|fBExch, oBasic).P("C01")), pick(tier, 4, 6), 1),
 			job(sc(sim.RelCfg("c01-rel-k3-cap1-storage", 0, 3, 0, 1, fBld|fMove|fRel|fRet|fVal|fBSet|fBExch|fReset, oBasic).P("C01")), pick(tier, 5, 7), 2),
 			job(sc(sim.RelCfg("c01-rel-k4-cap2-retarget-val", 0, 4, 2, 2, fBld|fMove|fRet|fVal, oBasic).P("C01")), pick(tier, 5, 8), 1),
+			// boundary seeds: 33 tables in a node, 34 nodes, entity IDs around 64 and 128
+			job(sc(sim.BoundaryTablesCfg("c01-boundary-33-tables", 2, fMove|fRet|fVal|fBSet, oBasic).P("C01")), pick(tier, 2, 3), 1),
+			job(sc(sim.BoundaryNodesCfg("c01-boundary-34-nodes", 1, fMove|fRel|fVal|fBExch, oBasic).P("C01")), pick(tier, 2, 3), 1),
+			job(sc(sim.BoundaryEntitiesCfg("c01-boundary-64-entities-cap1", 62, 4, 1, fRet|fMove|fBNew|fVal, oBasic).P("C01")), pick(tier, 3, 4), 0.5),
+			job(sc(sim.BoundaryEntitiesCfg("c01-boundary-128-entities", 124, 4, 128, fRet|fMove|fBNew|fVal, oBasic).P("C01")), pick(tier, 3, 4), 0.5),
 		}
 		return js
 	}, acceptProps("C01"))
@@ -119,6 +124,9 @@ func init() {
 			job(sc(sim.EntCfg("c02-ent-k5-cap2-illegal", 5, 2, fBNew|fBRem|fReset|fIll, oBasic).P("C02")), 0, 1),
 			job(sc(sim.CoreCfg("c02-core-k4-cap1", 4, 1, nil, fMove|fBNew|fBRem|fReset|fBExch, oBasic).P("C02")), pick(tier, 5, 7), 2),
 			job(sc(sim.RelCfg("c02-rel-k4-cap1", 0, 4, 0, 1, fBld|fMove|fRet|fBRem|fReset|fBNew, oBasic).P("C02")), pick(tier, 5, 7), 2),
+			job(sc(sim.BoundaryEntitiesCfg("c02-boundary-64-entities", 62, 4, 128, fBNew|fBRem|fReset, oBasic).P("C02")), pick(tier, 4, 5), 0.5),
+			job(sc(sim.BoundaryEntitiesCfg("c02-boundary-64-entities-cap1", 62, 4, 1, fBNew|fBRem|fRet, oBasic).P("C02")), pick(tier, 3, 4), 0.5),
+			job(sc(sim.BoundaryEntitiesCfg("c02-boundary-128-entities", 124, 4, 128, fBNew|fBRem|fReset, oBasic).P("C02")), pick(tier, 4, 5), 0.5),
 		}
 	}, acceptProps("C02"))
 
@@ -133,6 +141,8 @@ func init() {
 			job(sc(sim.RelCfg("c03-rel-k4-any-reg-life", 0, 4, 0, 8, fBld|fMove|fReg, oBasic).P("C03")), pick(tier, 7, 9), 3),
 			job(sc(sim.RelCfg("c03-rel-k4-batchq", 0, 4, 0, 8, fBld|fBSet|fBExch|fBNew|fQ, oBasic).P("C03")), pick(tier, 5, 7), 3),
 			job(sc(sim.CoreCfg("c03-core-k4-batchq", 4, 1, nil, fMove|fBExch|fBNew|fQ, oBasic).P("C03")), pick(tier, 4, 6), 2),
+			job(sc(sim.BoundaryNodesCfg("c03-boundary-34-nodes-iter", 1, fMove|fReg, oDeep).P("C03")), pick(tier, 2, 3), 1),
+			job(sc(sim.BoundaryTablesCfg("c03-boundary-33-tables-iter", 1, fRet|fReg, oDeep).P("C03")), pick(tier, 2, 3), 1),
 		}
 	}, func(f *wx.Failure, _ string) bool {
 		if f.Prop == "" || f.Prop == "C03" || f.Prop == "C09" {
@@ -170,6 +180,7 @@ func init() {
 			job(sc(sim.RelCfg("c06-rel-k3-any-val", 0, 3, 0, 1, fBld|fRet|fVal|fBNew, oBasic).P("C06")), pick(tier, 5, 7), 2),
 			job(sc(sim.Rel2Cfg("c06-rel2-k4-any-life", 4, 0, 8, fBld|fRel|fRet, oBasic).P("C06")), pick(tier, 5, 7), 2),
 			job(sc(sim.RelCfg("c06-rel-k4-any-reg-life", 0, 4, 0, 8, fBld|fMove|fReg, oBasic).P("C06")), pick(tier, 6, 8), 2),
+			job(sc(sim.BoundaryTablesCfg("c06-boundary-33-tables", 2, fMove|fRet|fBRem, oBasic).P("C06")), pick(tier, 3, 4), 1),
 		}
 	}, func(f *wx.Failure, _ string) bool { return true })
 
@@ -191,11 +202,22 @@ func init() {
 			job(mk("c07-rel-k5-2p-move-brem", 5, 2, fMove|fBRem, 1), pick(tier, 7, 10), 2),
 			job(mk("c07-rel-k3-any-broad", 3, 0, fMove|fRel|fRet|fBRem|fBExch|fBSet|fReset|fQ, 2), pick(tier, 5, 7), 2),
 			job(sc(func() *sim.Cfg {
+				// filters that match tables with and without relation component
+				c := sim.RelCfg("c07-rel-k4-any-mixed-filters", 0, 4, 0, 8, fReg|fBld|fPlain|fMove|fRel|fBRem, oBasic).P("C07")
+				c.MaxRegs = 2
+				c.RegSpecs = []int{6, 5, 0}
+				c.BatchRefs = []int{6, 5}
+				c.Sets = [][]int{{}, {0}, {1}, {1, 0}}
+				return c
+			}()), pick(tier, 6, 8), 2),
+			job(sc(func() *sim.Cfg {
 				c := sim.CoreCfg("c07-core-k4-mask-filters", 4, 8, nil, fMove|fReg|fBExch|fBRem|fPlain|fReset, oBasic).P("C07")
 				c.MaxRegs = 2
 				return c
 			}()), pick(tier, 5, 7), 1),
 			job(sc(sim.LogicCfg("c07-logic-k3", 3, fMove|fReg|fReset, oBasic).P("C07")), pick(tier, 5, 7), 1),
+			job(sc(sim.BoundaryTablesCfg("c07-boundary-33-tables", 2, fMove|fRet|fBRem|fReg|fPlain, oBasic).P("C07")), pick(tier, 3, 4), 1),
+			job(sc(sim.BoundaryNodesCfg("c07-boundary-34-nodes", 1, fMove|fReg|fBExch|fPlain, oBasic).P("C07")), pick(tier, 2, 3), 1),
 		}
 	}, func(f *wx.Failure, last string) bool {
 		return f.Prop == "" || f.Prop == "C07" || isBatchKind(last)
@@ -245,6 +267,7 @@ func init() {
 			job(ev(sim.Rel2Cfg("c11-rel2-k3-batch", 3, 0, 8, fBld|fRel|fBExch|fBSet|fRelX|fQ, 0)), pick(tier, 4, 6), 2),
 			job(ev(sim.CoreCfg("c11-core-k3", 3, 1, nil, fMove|fVal|fBNew|fBExch|fBRem|fQ|fReset, 0)), pick(tier, 5, 6), 2),
 			job(ev(sim.RelCfg("c11-rel-k4-1p-life", 0, 4, 1, 8, fBld|fMove|fRet|fBRem, 0)), pick(tier, 6, 8), 2),
+			job(ev(sim.RelCfg("c11-rel-r0-k3-single", 1, 3, 0, 8, fBld|fMove|fRel|fRet|fRelX|fBExch, 0)), pick(tier, 4, 6), 2),
 		}
 	}, acceptProps("C11"))
 }
